@@ -586,7 +586,7 @@ class C08(core.Check):
                 if arg == 'on':
                     v = rng.choice(ON_VALUES)
                 elif arg == 'priority':
-                    v = rng.choice([10, 70, None, 50])
+                    v = rng.choice([10, 70, None, 50, 0, 0])      # 0 is a legal priority (runs first), not 'unset'
                 else:
                     v = rng.choice([sid, 1, None, 'v'])
                 d['%s.%s.%s' % (ns, t, arg)] = v
